@@ -3,10 +3,14 @@
    Each answer is `<model> | <oracle>`.  The oracles below are written directly from the
    mathematical definitions (range tables, "nearest representable value, ties to the even
    significand", "truncate the rational value of the float toward zero") and share no code with
-   the model functions of NB.Model.Convert / NB.Model.Float.  -/
+   the model functions of NB.Model.Convert / NB.Model.Float.
+   The model column of the float ops (`u.high_bits`, `u/i.to_f32/f64`, `u/i.from_f32/f64`) is the DIGIT-level
+   model NB.Model.FloatD (`bits()`, `fls`, `<<=`, `>>=` through the digit-level models of C07, shift panics
+   propagated); NB.Props.C08 proves it equal to NB.Model.Float (`…D_refines`) — no size cap.  -/
 import NB.Wire
 import NB.Model.Convert
 import NB.Model.Float
+import NB.Model.FloatD
 namespace NB.Drv.C08
 open NB NB.Wire NB.Conv
 
@@ -187,36 +191,36 @@ def handle (op : String) (args : List String) : Option (String × String) :=
   -- big → float
   | "u.high_bits", [x] => do
     let x ← parseLimbs x
-    pure (showBitsE (highBitsToU64 x), "ok " ++ showHex (oHighBits (val x)))
+    pure (showBitsE (highBitsToU64D x), "ok " ++ showHex (oHighBits (val x)))
   | "u.to_f64", [x] => do
     let x ← parseLimbs x
-    pure (showBitsE (U.toFloat f64 x), "ok " ++ showHex (oToFloat 53 11 (val x)))
+    pure (showBitsE (U.toFloatD f64 x), "ok " ++ showHex (oToFloat 53 11 (val x)))
   | "u.to_f32", [x] => do
     let x ← parseLimbs x
-    pure (showBitsE (U.toFloat f32 x), "ok " ++ showHex (oToFloat 24 8 (val x)))
+    pure (showBitsE (U.toFloatD f32 x), "ok " ++ showHex (oToFloat 24 8 (val x)))
   | "i.to_f64", [x] => do
     let x ← parseBigInt x
-    pure (showBitsE (I.toFloat f64 x), "ok " ++ showHex (oNeg 64 (oToFloat 53 11 x.val.natAbs) (x.val < 0)))
+    pure (showBitsE (I.toFloatD f64 x), "ok " ++ showHex (oNeg 64 (oToFloat 53 11 x.val.natAbs) (x.val < 0)))
   | "i.to_f32", [x] => do
     let x ← parseBigInt x
-    pure (showBitsE (I.toFloat f32 x), "ok " ++ showHex (oNeg 32 (oToFloat 24 8 x.val.natAbs) (x.val < 0)))
+    pure (showBitsE (I.toFloatD f32 x), "ok " ++ showHex (oNeg 32 (oToFloat 24 8 x.val.natAbs) (x.val < 0)))
   -- float → big
   | "u.from_f64", [b] => do
     let b ← parseHex b
     if b ≥ 2 ^ 64 then none else
-    pure (showOpt showLimbs (U.fromF64 b), showOpt showLimbs (oFromFloatU 53 11 b))
+    pure (showEO showLimbs (U.fromF64D b), showOpt showLimbs (oFromFloatU 53 11 b))
   | "u.from_f32", [b] => do
     let b ← parseHex b
     if b ≥ 2 ^ 32 then none else
-    pure (showOpt showLimbs (U.fromF32 b), showOpt showLimbs (oFromFloatU 24 8 b))
+    pure (showEO showLimbs (U.fromF32D b), showOpt showLimbs (oFromFloatU 24 8 b))
   | "i.from_f64", [b] => do
     let b ← parseHex b
     if b ≥ 2 ^ 64 then none else
-    pure (showOpt showBigInt (I.fromF64 b), showOpt showBigInt (oFromFloatI 53 11 b))
+    pure (showEO showBigInt (I.fromF64D b), showOpt showBigInt (oFromFloatI 53 11 b))
   | "i.from_f32", [b] => do
     let b ← parseHex b
     if b ≥ 2 ^ 32 then none else
-    pure (showOpt showBigInt (I.fromF32 b), showOpt showBigInt (oFromFloatI 24 8 b))
+    pure (showEO showBigInt (I.fromF32D b), showOpt showBigInt (oFromFloatI 24 8 b))
   | _, _ => none
 where su (l : List Nat) : String := "ok " ++ showLimbs l
 
